@@ -222,11 +222,13 @@ def run(tier):
     for e in evs:
         chk.distinct(json.dumps([e["us"], e["allr"], e["nr"]]))
     # ---- C: full system
-    dates = ["2023-01-01"] + rnd.sample([d for d in DATES if d != "2023-01-01"], 2 if quick else len(DATES) - 1)
-    njobs = 48 if quick else 800
+    from c04 import change_dates_for
+
+    dates = change_dates_for(rnd, quick, 2, nreg=1)      # thorough: every change date 2015-2025 outside 2017H1
+    njobs = 48 if quick else 40 * len(dates)
     fjobs = [("full", dates[t % len(dates)], rnd.randrange(1 << 30), t) for t in range(njobs)]
     t = njobs
-    for d in dates[: (2 if quick else len(dates))]:
+    for d in (dates[:2] if quick else dates[::2]):
         for kind in (["single_parent_1", "family_2"] if quick else ["single_parent_1", "single_parent_2", "family_2", "family_3"]):
             for rent in ([500.0] if quick else [350.0, 600.0, 900.0]):
                 fjobs.append(("sweep", d, kind, rent, rnd.randrange(1 << 30), t))
